@@ -716,6 +716,7 @@ impl ParserListener for Screen {
                         .and_then(|l| l.get_mut(&(self.columns - 1)))
                     {
                         last.data = last.data.nfc().collect::<String>() + &char.to_string();
+                        self.dirty.insert(self.cursor.y - 1);
                     }
                 }
             } else {
